@@ -355,7 +355,17 @@ class RangeDomain:
         if s["detail"] is None:
             ops = [deref_value(ex, ex.operand(fr, o)) for o in term.get("ops", [])]
             s["detail"] = "operands %s" % [repr(o)[:40] for o in ops]
+        # execution goes on only where the assertion held: what follows may rely on it (an index that passed its bounds check is
+        # below the length, so `pos + 1` after `slice[pos]` cannot overflow)
+        if isinstance(cond, tuple) and len(cond) == 4 and cond[0] == "cond" and cond[1] == "icmp":
+            try:
+                self.refine(ex, fr, cond, bool(term["expected"]) != bool(cond[3]))
+            except Exception:
+                pass
         return True
+
+    def unknown_len(self, ex):
+        return Rng(0, 2 ** 63 - 1)          # no slice is longer than isize::MAX elements
 
     # ------------------------------------------------------------ calls
     def call(self, ex, fk, args, term, fr):
@@ -432,6 +442,15 @@ class RangeDomain:
             return Iter(a[0].items[a[0].pos:][a[1]:])
         if n == "zip" and len(a) == 2 and isinstance(a[0], Iter) and isinstance(a[1], Iter):
             return Iter([Tup([x, y]) for x, y in zip(a[0].items[a[0].pos:], a[1].items[a[1].pos:])])
+        if n == "flat_map" and len(a) == 2 and isinstance(a[0], Iter) and isinstance(a[1], Adt) and a[1].name.startswith("closure:"):
+            # the closure is run on every element of the literal iteration space (what it yields is not tracked)
+            cb = self.F.bodies.get(a[1].name[len("closure:"):])
+            if cb is not None:
+                for x in a[0].items[a[0].pos:]:
+                    sub = AbsExec(self.F, self, inline=ex.inline)
+                    sub.depth = getattr(ex, "depth", 0) + 1
+                    sub.run(cb, [a[1], TOP if x is OPAQUE else x])
+            return TOP
         if n == "map" and len(a) == 2 and isinstance(a[0], Iter) and isinstance(a[1], Adt) and a[1].name.startswith("closure:"):
             cb = self.F.bodies.get(a[1].name[len("closure:"):])
             if cb is not None:
